@@ -71,24 +71,25 @@ Proof.
     apply Forall_forall. intros c Hc. apply filter_In in Hc. tauto.
 Qed.
 
-(* Bipartition(leafset_bitmask=nm, tree_leafset_bitmask=all, is_mutable=False, compile_bipartition=True) *)
-Lemma gen_init_new nm all : all <> 0 ->
-  exists b, gen_init None (Some (Some nm)) (Some (Some all)) None (Some (Some false)) (Some (Some true)) = Ok (b, tt)
+(* Bipartition(leafset_bitmask=nm, tree_leafset_bitmask=all, is_rooted=rt, is_mutable=False, compile_bipartition=True)
+   (is_rooted handed on since repair 1507fc88; the leafset mask does not depend on it) *)
+Lemma gen_init_new (rt : option bool) nm all : all <> 0 ->
+  exists b, gen_init None (Some (Some nm)) (Some (Some all)) (Some rt) (Some (Some false)) (Some (Some true)) = Ok (b, tt)
             /\ b_leafset b = Some (Z.land nm all).
 Proof.
   intro N. assert (E : (all =? 0) = false) by (apply Z.eqb_neq; exact N).
   unfold gen_init, gen_compile_split_bitmask, gen_compile_tree_leafset_bitmask, gen_compile_leafset_bitmask,
-    truthy_oz, kw_get, bip_blank.
-  destruct (Z.eqb nm 0) eqn:En.
-  - apply Z.eqb_eq in En. subst nm.
-    repeat (cbn -[py_normalize_bitmask py_least_significant_set_bit Z.eqb Z.land]; rewrite ?E).
-    eexists. split; [reflexivity|]. cbn [b_leafset]. rewrite Z.land_0_l. reflexivity.
-  - repeat (cbn -[py_normalize_bitmask py_least_significant_set_bit Z.eqb Z.land]; rewrite ?E, ?En).
-    eexists. split; [reflexivity | reflexivity].
+    truthy_oz, truthy_ob, kw_get, bip_blank.
+  destruct rt as [[|]|]; (destruct (Z.eqb nm 0) eqn:En;
+  [ apply Z.eqb_eq in En; subst nm;
+    repeat (cbn -[py_normalize_bitmask py_least_significant_set_bit Z.eqb Z.land]; rewrite ?E);
+    eexists; split; [reflexivity|]; cbn [b_leafset]; rewrite Z.land_0_l; reflexivity
+  | repeat (cbn -[py_normalize_bitmask py_least_significant_set_bit Z.eqb Z.land]; rewrite ?E, ?En);
+    eexists; split; [reflexivity | reflexivity] ]).
 Qed.
 
 Section Node.
-  Variables (all s : Z).
+  Variables (rt : option bool) (all s : Z).
   Hypothesis Hall : all <> 0.
 
   Definition gstep (acc_ : res (Z * list mtree * option bip)) (child : mtree) : res (Z * list mtree * option bip) :=
@@ -99,7 +100,7 @@ Section Node.
       (if negb (negb (Z.eqb cecm s)) then Err AssertErr else
        let new_mask := (Z.lor new_mask cecm) in
        let new_node_children := new_node_children ++ [child] in
-       do b_ <- gen_init None (Some (Some new_mask)) (Some (Some all)) None (Some (Some false)) (Some (Some true));;
+       do b_ <- gen_init None (Some (Some new_mask)) (Some (Some all)) (Some rt) (Some (Some false)) (Some (Some true));;
        Ok (new_mask, new_node_children, Some (fst b_)))
     else Ok st_.
 
@@ -118,7 +119,7 @@ Section Node.
       destruct (hits s k) eqn:Hk.
       + assert (NE : (m_mask k =? s) = false) by (apply Z.eqb_neq; apply H; [left; reflexivity | exact Hk]).
         rewrite NE. cbn [negb].
-        destruct (gen_init_new (Z.lor a (m_mask k)) all Hall) as (b & Eb & Lb). rewrite Eb. cbn [bind fst].
+        destruct (gen_init_new rt (Z.lor a (m_mask k)) all Hall) as (b & Eb & Lb). rewrite Eb. cbn [bind fst].
         destruct (IH (Z.lor a (m_mask k)) (kids ++ [k]) (Some b) (fun c Hc => H c (or_intror Hc))) as (ob' & E1 & E2 & E3).
         exists ob'. cbn [map fold_left]. rewrite E1, <- app_assoc. split; [reflexivity|]. split; [discriminate|].
         intros _. destruct (filter (hits s) r) as [|c q] eqn:F.
@@ -128,7 +129,7 @@ Section Node.
   Qed.
 End Node.
 
-Lemma gstep_is_generated all s ks st :
+Lemma gstep_is_generated rt all s ks st :
   fold_left (fun acc_ child =>
       do st_ <- acc_;;
       let new_mask := fst (fst st_) in let new_node_children := snd (fst st_) in
@@ -137,9 +138,9 @@ Lemma gstep_is_generated all s ks st :
         (if negb (negb (Z.eqb cecm s)) then Err AssertErr else
          let new_mask := (Z.lor new_mask cecm) in
          let new_node_children := new_node_children ++ [child] in
-         do b_ <- gen_init None (Some (Some new_mask)) (Some (Some all)) None (Some (Some false)) (Some (Some true));;
+         do b_ <- gen_init None (Some (Some new_mask)) (Some (Some all)) (Some rt) (Some (Some false)) (Some (Some true));;
          Ok (new_mask, new_node_children, Some (fst b_)))
-      else Ok st_) ks st = fold_left (gstep all s) ks st.
+      else Ok st_) ks st = fold_left (gstep rt all s) ks st.
 Proof. reflexivity. Qed.
 
 (* the model's action at the node the search stops at *)
@@ -153,10 +154,10 @@ Definition node_model (s : Z) (t : mtree) : mtree :=
          else t
   end.
 
-Lemma at_node_eq all s m x ks :
+Lemma at_node_eq rt all s m x ks :
   mwf (M m x ks) -> s <> 0 -> msubset s m -> msubset m all ->
   (forall c, In c ks -> hits s c = true -> m_mask c <> s) ->
-  gen_from_splits_at_node all s (M m x ks) = Ok (node_model s (M m x ks)).
+  gen_from_splits_at_node rt all s (M m x ks) = Ok (node_model s (M m x ks)).
 Proof.
   intros W S0 Sub MA NoEq. unfold gen_from_splits_at_node, node_model. cbn [m_mask m_kids orb].
   destruct (Z.eqb_spec m s) as [E | N]; [reflexivity|].
@@ -164,7 +165,7 @@ Proof.
   assert (A0 : all <> 0).
   { intro E. apply M0. apply msubset_0. rewrite <- E. exact MA. }
   rewrite gstep_is_generated.
-  destruct (gather_fold all s A0 ks 0 [] None NoEq) as (ob' & E1 & E2 & E3). rewrite E1. cbn [bind fst snd app].
+  destruct (gather_fold rt all s A0 ks 0 [] None NoEq) as (ob' & E1 & E2 & E3). rewrite E1. cbn [bind fst snd app].
   set (sel := filter (hits s) ks) in *. set (nm := fold_left Z.lor (map m_mask sel) 0) in *.
   (* some child meets the split *)
   assert (SelNE : sel <> []).
@@ -191,9 +192,9 @@ Lemma existsb_ext_l {A} (f g : A -> bool) l : (forall a, f a = g a) -> existsb f
 Proof. intro H. induction l as [|a r IH]; [reflexivity|]. cbn [existsb]. rewrite H, IH. reflexivity. Qed.
 
 (* the whole iteration = the model's add_split, on well-formed working trees inside all_taxa_bitmask *)
-Lemma locate_eq all s k : s <> 0 -> lowest s k ->
+Lemma locate_eq rt all s k : s <> 0 -> lowest s k ->
   forall t, mwf t -> msubset s (m_mask t) -> msubset (m_mask t) all ->
-  prim_locate_apply (fun mask_ => negb (Z.eqb (Z.land s mask_) s)) (2 ^ k) (gen_from_splits_at_node all s) t
+  prim_locate_apply (fun mask_ => negb (Z.eqb (Z.land s mask_) s)) (2 ^ k) (gen_from_splits_at_node rt all s) t
   = Ok (insert_split s (2 ^ k) t).
 Proof.
   intros S0 Hl. induction t as [m x ks IH] using mtree_ind'. intros W Sub MA. cbn [m_mask] in Sub, MA.
@@ -208,7 +209,7 @@ Proof.
                | [] => Ok []
                | c :: r =>
                  match (if hits (2 ^ k) c && negb (negb (Z.land s (m_mask c) =? s))
-                        then prim_locate_apply (fun mask_ => negb (Z.land s mask_ =? s)) (2 ^ k) (gen_from_splits_at_node all s) c
+                        then prim_locate_apply (fun mask_ => negb (Z.land s mask_ =? s)) (2 ^ k) (gen_from_splits_at_node rt all s) c
                         else Ok c) with
                  | Ok c' => match go r with Ok r' => Ok (c' :: r') | Err er => Err er | OutOfFuel => OutOfFuel end
                  | Err er => Err er
@@ -225,7 +226,7 @@ Proof.
         rewrite (IHr Fr (fun d Hd => MA' d (or_intror Hd))). unfold istep. reflexivity.
       - rewrite (IHr Fr (fun d Hd => MA' d (or_intror Hd))). reflexivity. }
     rewrite G. reflexivity.
-  - rewrite (at_node_eq all s m x ks W S0 Sub MA).
+  - rewrite (at_node_eq rt all s m x ks W S0 Sub MA).
     + unfold node_model. destruct (Z.eqb m s); [reflexivity|]. reflexivity.
     + intros c Hc Hh Em.
       assert (icond s (2 ^ k) c = true); [| assert (existsb (icond s (2 ^ k)) ks = true) by (apply existsb_exists; exists c; split; assumption); congruence].
@@ -233,21 +234,21 @@ Proof.
       rewrite Cv, (covers_hits_lb s k Hl c Cv). reflexivity.
 Qed.
 
-Lemma gen_from_splits_step_eq all t s : mwf t -> s <> 0 -> msubset (m_mask t) all ->
-  gen_from_splits_step all t s = Ok (add_split t s).
+Lemma gen_from_splits_step_eq rt all t s : mwf t -> s <> 0 -> msubset (m_mask t) all ->
+  gen_from_splits_step rt all t s = Ok (add_split t s).
 Proof.
   intros W S0 MA. unfold gen_from_splits_step, add_split.
   destruct (negb (Z.land s (m_mask t) =? s)) eqn:E; [reflexivity|].
   apply negb_false_iff, Z.eqb_eq in E. destruct (lsb_pow2 s S0) as (k & Hk & EL). rewrite EL.
-  apply (locate_eq all s k S0 Hk t W); [apply msubset_land; exact E | exact MA].
+  apply (locate_eq rt all s k S0 Hk t W); [apply msubset_land; exact E | exact MA].
 Qed.
 
 (* the insertion loop *)
-Lemma gen_fold_eq all : forall l t, mwf t -> Forall (fun s => s <> 0) l -> msubset (m_mask t) all ->
-  fold_left (fun acc_ s => do t0 <- acc_;; gen_from_splits_step all t0 s) l (Ok t) = Ok (fold_left add_split l t).
+Lemma gen_fold_eq rt all : forall l t, mwf t -> Forall (fun s => s <> 0) l -> msubset (m_mask t) all ->
+  fold_left (fun acc_ s => do t0 <- acc_;; gen_from_splits_step rt all t0 s) l (Ok t) = Ok (fold_left add_split l t).
 Proof.
   induction l as [|s r IH]; intros t W NZ MA; [reflexivity|]. inversion NZ as [|? ? Hs NZr]; subst.
-  cbn [fold_left bind]. rewrite (gen_from_splits_step_eq all t s W Hs MA).
+  cbn [fold_left bind]. rewrite (gen_from_splits_step_eq rt all t s W Hs MA).
   destruct (add_split_ok t s W Hs) as [(W1 & M1 & _) _].
   apply IH; [exact W1 | exact NZr | rewrite M1; exact MA].
 Qed.
